@@ -9,7 +9,7 @@ QUICK = ["one_irq", "seq2", "if_else_first", "if_else_last", "two_if", "two_if_e
 def main(tier, seed):
     c = Check("C01", tier, seed)
     jobs = []
-    names = QUICK if tier == "quick" else list(scen.catalogue().keys())
+    names = QUICK if tier == "quick" else scen.flow_names()
     for n in names:
         for pol in (("fifo", "lifo") if tier == "quick" else ("explore",)):
             jobs.append(("props.flow", "run_scenario", (n, dict(policy=pol, k=0, oracles=("c01",), max_paths=300 if tier == "quick" else 3000,
